@@ -51,8 +51,9 @@ package host
 //@   ensures @cache-members-non-nil typeis(aval[set.healthyCache.Value], "[]*Host") ==> forall k int :: 0 <= k && k < len(unbox(aval[set.healthyCache.Value], "[]*Host")) ==> unbox(aval[set.healthyCache.Value], "[]*Host")[k] != nil
 //@   ensures @cache-members-come-from-the-preferred-tier forall k int :: 0 <= k && k < len(unbox(aval[set.healthyCache.Value], "[]*Host")) ==> exists a string :: has(tierof(set), a) && tierof(set)[a] == unbox(aval[set.healthyCache.Value], "[]*Host")[k]
 //@   ensures @cache-has-one-entry-per-tier-member len(unbox(aval[set.healthyCache.Value], "[]*Host")) == len(tierof(set))
-//@   loop 0 invariant (cap(keys) == 0 || fresh(keys)) && len(keys) <= len(hostMap) && hostMap == tierof(set) && forall i int :: 0 <= i && i < len(keys) ==> has(hostMap, keys[i])
+//@   loop 0 invariant (cap(keys) == 0 || fresh(keys)) && len(keys) == iterated0 && hostMap == tierof(set) && forall i int :: 0 <= i && i < len(keys) ==> has(hostMap, keys[i])
 //@   loop 1 assume forall i int :: 0 <= i && i < len(keys) ==> has(hostMap, keys[i])
+//@   loop 1 invariant len(keys) == len(hostMap)
 //@   loop 1 invariant (cap(hosts) == 0 || fresh(hosts)) && len(hosts) == rangeindex + 1 && hostMap == tierof(set) && forall i int :: 0 <= i && i < len(hosts) ==> hosts[i] != nil && has(hostMap, keys[i]) && hosts[i] == hostMap[keys[i]]
 
 //@ func (*Set).add
